@@ -5,7 +5,8 @@ package config
 import "github.com/jmattheis/goverter/pkgload"
 
 // ParseEachVerif parses every raw converter separately over one shared package loader.
-func ParseEachVerif(raw *Raw) ([]*Converter, []error, error) {
+// globals, when not nil, holds the command line settings of each converter.
+func ParseEachVerif(raw *Raw, globals []RawLines) ([]*Converter, []error, error) {
 	loader, err := pkgload.New(raw.WorkDir, raw.BuildTags, getPackages(raw))
 	if err != nil {
 		return nil, nil, err
@@ -15,13 +16,17 @@ func ParseEachVerif(raw *Raw) ([]*Converter, []error, error) {
 	errs := make([]error, len(raw.Converters))
 	for i := range raw.Converters {
 		rc := raw.Converters[i]
+		global := raw.Global
+		if globals != nil {
+			global = globals[i]
+		}
 		func() {
 			defer func() {
 				if r := recover(); r != nil {
 					errs[i] = &PanicVerif{Value: r}
 				}
 			}()
-			convs[i], errs[i] = parseConverter(ctx, &rc, raw.Global)
+			convs[i], errs[i] = parseConverter(ctx, &rc, global)
 		}()
 	}
 	return convs, errs, nil
